@@ -28,6 +28,7 @@ type C15Op struct {
 	Keys []int `json:"keys,omitempty"` // replenish: distinct account / pool indices
 	Rel  int   `json:"rel,omitempty"`  // replenish: target = balance of the first key + Rel (if Abs == 0)
 	Abs  int   `json:"abs,omitempty"`  // replenish: target = amount code Abs-1 (if > 0)
+	Dup  bool  `json:"dup,omitempty"`  // replenish: list the first key a second time at the end of the request
 
 	Bad    string `json:"bad,omitempty"`    // attach/detach: wrong-key other-host expired; service: token-otherkey token-expired token-otherhost
 	By     string `json:"by,omitempty"`     // detach: pool | account
@@ -181,7 +182,9 @@ func (x *c15) fund(m *mcontract, deps []proto4.AccountDeposit) error {
 	return x.after(what, nil)
 }
 
-// replenish tops distinct accounts or pools up to target.
+// replenish tops accounts or pools up to target. kidx may name a key more than
+// once; the harness' expectation is the statement's: every listed balance ends
+// at max(before, target), so a repeated key needs nothing the second time.
 func (x *c15) replenish(m *mcontract, pools bool, kidx []int, target types.Currency) error {
 	all, bal, creditOp, name := x.Accts, x.Bal, "CreditAccountsWithContract", "accounts"
 	if pools {
@@ -190,16 +193,28 @@ func (x *c15) replenish(m *mcontract, pools bool, kidx []int, target types.Curre
 	var keys []proto4.Account
 	var deps []proto4.AccountDeposit
 	var sum types.Currency
+	running := map[int]types.Currency{}
+	dup := false
 	for _, i := range kidx {
+		b, seen := running[i]
+		if !seen {
+			b = bal[i]
+		} else {
+			dup = true
+		}
 		keys = append(keys, all[i])
 		d := proto4.AccountDeposit{Account: all[i]}
-		if target.Cmp(bal[i]) > 0 {
-			d.Amount = target.Sub(bal[i])
+		if target.Cmp(b) > 0 {
+			d.Amount = target.Sub(b)
 		}
+		running[i] = b.Add(d.Amount)
 		sum = sum.Add(d.Amount)
 		deps = append(deps, d)
 	}
 	what := fmt.Sprintf("replenish %s %v to %v", name, kidx, target)
+	if dup {
+		x.cs.Class("replenish-key-listed-twice")
+	}
 	before := x.snapshot()
 	logFrom := x.H.Log.Len()
 	r := x.R.Replenish(m.view(), pools, keys, target, rhpx.Script{}, nil)
@@ -210,7 +225,7 @@ func (x *c15) replenish(m *mcontract, pools bool, kidx []int, target types.Curre
 	_, _, rerr := proto4.ReviseForReplenish(m.Rev, sum)
 	valid := len(keys) > 0 && !target.IsZero() && rerr == nil
 	if !r.Done {
-		if valid {
+		if valid && !dup {
 			return fmt.Errorf("%s: an honest affordable replenish was refused: %v", what, r.Result)
 		}
 		x.cs.Class("replenish-refused")
@@ -223,7 +238,7 @@ func (x *c15) replenish(m *mcontract, pools bool, kidx []int, target types.Curre
 		return fmt.Errorf("%s: accepted although it is invalid or unaffordable", what)
 	}
 	if !reflect.DeepEqual(append([]proto4.AccountDeposit{}, r.Resp.Deposits...), append([]proto4.AccountDeposit{}, deps...)) {
-		return fmt.Errorf("%s: host announces deposits %v, max(target - balance, 0) per key gives %v", what, r.Resp.Deposits, deps)
+		return fmt.Errorf("%s: host announces deposits %v, topping every listed key up to the target and not beyond needs %v", what, r.Resp.Deposits, deps)
 	}
 	if sum.IsZero() {
 		if !r.NoOp {
@@ -238,16 +253,18 @@ func (x *c15) replenish(m *mcontract, pools bool, kidx []int, target types.Curre
 	if err := x.creditOracle(what, m, logFrom, creditOp, deps); err != nil {
 		return err
 	}
-	for j, i := range kidx {
+	for i, b := range running {
 		want := bal[i]
 		if target.Cmp(want) > 0 {
 			want = target
 		}
-		bal[i] = bal[i].Add(deps[j].Amount)
-		if !bal[i].Equals(want) {
+		if !b.Equals(want) {
 			return fmt.Errorf("harness: replenish model inconsistent")
 		}
-		if deps[j].Amount.IsZero() {
+		bal[i] = b
+	}
+	for _, d := range deps {
+		if d.Amount.IsZero() {
 			x.cs.Class("replenish-mixed-some-above-target")
 		}
 	}
@@ -759,6 +776,9 @@ func (x *c15) step(op C15Op) error {
 		if len(kidx) == 0 {
 			kidx = []int{0}
 		}
+		if op.Dup {
+			kidx = append(kidx, kidx[0])
+		}
 		var target types.Currency
 		if op.Abs > 0 {
 			target = amount15(op.Abs - 1)
@@ -864,6 +884,7 @@ func genC15(t *rapid.T) C15Case {
 			for j := 0; j < nk; j++ {
 				op.Keys = append(op.Keys, rapid.IntRange(0, 2).Draw(t, "key"))
 			}
+			op.Dup = rapid.IntRange(0, 5).Draw(t, "dup") == 0
 			if rapid.Bool().Draw(t, "abs") {
 				op.Abs = 1 + rapid.IntRange(0, len(c15Amounts)-1).Draw(t, "target")
 			} else {
@@ -911,7 +932,7 @@ var c15Prop = kit.Prop[C15Case]{
 	Rule: "sequences (2..12) over 3 accounts, 2 pools and 2 contracts against the real rhp4.Server: fund, replenish accounts/pools (targets below, at and above the current balance, mixed keys), attach/detach (valid incl. batches and idempotent repeats; signed by the wrong key; bound to another host key; expired; never-funded pool), read/write/verify with the drawable funds (own balance + attached pools, split by drawn weights) topped up to cost-1, cost or cost+1, unknown sectors, invalid account tokens, balance queries. Oracle from the recorded Contractor/Sectors calls and a balance model: every credit batch is carried by exactly one doubly-signed revision moving the same total from renter to host; every debit carries core's price of the request and precedes the single sector operation; insufficient funds / invalid token / unknown sector => no data, no sector operation, no balance change; replenish leaves max(before, target); rejected attach/detach never reach the contractor; balances and the ordered attachment table (read by value) equal the model (own balance first, then pools in attachment order) after every step. Non-trivial = a debit that drains the account's own balance and continues into a pool, or a request exactly one hasting short; distinct by hash of the case.",
 	Assumptions: []string{
 		"host = rhp4.Server over the repository's reference EphemeralContractor / EphemeralSectorStore, in-memory transport",
-		"one replenish request lists distinct keys (what the client's callers pass); a key listed twice is outside the generator",
+		"a replenish request may list a key twice (the request validation does not exclude it); the expectation is the statement's: the balance ends at max(before, target); a host that refuses such a request outright is accepted too",
 		"attachment table is read from the reference contractor by value (reflection) and cross-checked with the recorded Attach/Detach calls",
 		"core's price functions and signature hashes are the trusted base",
 	},
